@@ -57,6 +57,13 @@ def cases(tier, seed):
         for mapping in ('open', 'closed'):
             for start in range(0, total, CHUNK):
                 out.append(('patterns', n, start, min(total, start + CHUNK), mapping, 0))
+    # one process, several data sets whose Kendall taus agree to 5 decimals but are not equal: each result is calibrated to ITS
+    # tau (nothing remembered from an earlier, nearly equal call)
+    for t in (-0.5, -0.05, 0.3, 0.6):
+        out.append(('close-taus', t, 0, 0, 0, 0))
+    # tables long enough that any thinning / blocking of the rows would show in tau and theta
+    for fam, t in (('frank', 0.5), ('clayton', 0.4), ('frank', -0.3)):
+        out.append(('large', fam, t, 24000, 0, 0))
     return out
 
 
@@ -172,6 +179,49 @@ def run_case(case):
                        'X': A.pattern_array(n, start, mapping).tolist()}
         return r
 
+    if kind == 'close-taus':
+        t = case[1]
+        X0 = A.designed_tau_array(1000, t)
+        variants = [('designed n=1000 tau~%s' % t, X0)]
+        order = np.argsort(X0[:, 0], kind='stable')
+        for nsw in (1, 2, 3):
+            Y = X0.copy()
+            for j in range(nsw):
+                a_, b_ = order[300 + 10 * j], order[301 + 10 * j]
+                Y[[a_, b_], 1] = Y[[b_, a_], 1]
+            variants.append((f'the same with {nsw} adjacent pair(s) of v exchanged', Y))
+        taus = []
+        for tag, X in variants + variants[::-1]:
+            tref = K.tau_b(X[:, 0], X[:, 1])
+            taus.append(tref)
+            r.tr()
+            r.ev()
+            r.nontriv()
+            res = select_copula(X.copy())
+            _calibrated(r, res, tref, case, tag)
+            fr = Frank()
+            fr.fit(X.copy())
+            _calibrated(r, fr, tref, case, tag + ' [Frank.fit]')
+            r.state(('close-taus', t, tag))
+        engine.require(len(set(taus)) >= 3 and max(taus) - min(taus) < 5e-5, 'close-tau variants are not close and distinct')
+        r.hit('close-taus')
+        r['sample'] = {'kind': 'close taus', 'taus': sorted(set(taus))}
+        return r
+    if kind == 'large':
+        from mc.ref import samplers
+        _, fam, t, n, _, _ = case
+        th = theta_for(fam, abs(t)) if fam != 'frank' else theta_for('frank', abs(t)) * (1 if t > 0 else -1)
+        X = samplers.sample(fam, th, n, points=A.lattice(n + 1, 2)[1:])
+        tref = K.tau_b(X[:, 0], X[:, 1])
+        r.tr()
+        r.ev()
+        r.nontriv()
+        r.state(('large', fam, t, n))
+        res = select_copula(X.copy())
+        _calibrated(r, res, tref, case, f'{fam} lattice sample, n={n}, tau~{t}')
+        r.hit('large')
+        r['sample'] = {'kind': 'large table', 'n': n, 'family': fam, 'tau': tref, 'selected': type(res).__name__}
+        return r
     _, fam, tau, k0, k1, seed = case
     hits = 0
     for k in range(k0, k1):
